@@ -5,18 +5,18 @@ V = os.path.dirname(os.path.dirname(os.path.abspath(__file__)))
 
 CHECKS = {
     'C14': ('model_checking', '§5 C14',
-            'Every integer builtin on the complete product of an edge-value pool (0, ±1, ±2^31, ±2^63±2, ±2^64, ±2^127, 10^38, 3^100, 2^400-1, ...) compared in lock-step with Python int; canonical-form law over 7 computation routes per value.',
+            'Every integer builtin on the complete product of an edge-value pool (0, ±1, ±2^31, ±2^63±2, ±2^64, ±2^127, 10^38, 3^100, 2^400-1, ...) compared in lock-step with Python int; canonical-form law over 7 computation routes per value. Also: the bases 0, 1, -1 raised to exponents of every magnitude and parity up to 2^200.',
             'Python int, fractions.Fraction and math.comb are the reference; pool values only (a defect needing another operand is missed).',
             'bounded-exhaustive term enumeration vs reference model (Python int)'),
 }
 
 CHECKS['C18'] = ('model_checking', '§5 C18',
-    'Every string builtin on every string of <=3 characters over an alphabet mixing 1-4 byte characters, combining marks and case-expanding characters (plus 20 longer strings), with every index in {-len-1..len+5} and every 1-2 character needle, compared in lock-step with Python str; every literal spelling of <=3 pieces x quote kind x fence depth 0-2 x prefix {plain, r, f} compared with a reference unescaper; each string result is re-probed (len, chars, concatenation).',
+    'Every string builtin on every string of <=3 characters over an alphabet mixing 1-4 byte characters, combining marks and case-expanding characters (plus 20 longer strings), with every index in {-len-1..len+5} and every 1-2 character needle, compared in lock-step with Python str; every literal spelling of <=3 pieces x quote kind x fence depth 0-2 x prefix {plain, r, f} compared with a reference unescaper; each string result is re-probed (len, chars, concatenation). The longer strings include titlecase letters, final sigma and ligatures.',
     'Python str/upper/lower are the reference; out-of-range slices may be an error or the clamped slice; \\u{..} inside f-strings is treated as unspecified.',
     'bounded-exhaustive term enumeration vs reference model (Python str)')
 
 CHECKS['C13'] = ('exploration', '§5 C13',
-    'Every static overload whose return type carries a float (float, Complex, Duration, Datetime, JSON, Matrix, LinearRegression and containers of them) is called on the complete product (arity<=2) of edge-value pools (0, -0, subnormal, 1e-300, 709.79, 1e155, 1e300, DBL_MAX, huge integers up to 10^400); plus operators, dynamic statistics, literal spellings and JSON numbers. Oracle is a range claim: no float with an all-ones exponent anywhere in the dumped result.',
+    'Every static overload whose return type carries a float (float, Complex, Duration, Datetime, JSON, Matrix, LinearRegression and containers of them) is called on the complete product (arity<=2) of edge-value pools (0, -0, subnormal, 1e-300, 709.79, 1e155, 1e300, DBL_MAX, huge integers up to 10^400); plus operators, dynamic statistics, literal spellings and JSON numbers. Oracle is a range claim: no float with an all-ones exponent anywhere in the dumped result. Quantile probabilities include values an ulp outside [0, 1].',
     'Pools are finite; a function that overflows only at another operand is missed. No reference values are compared (that is C02/C14/C20).',
     'bounded-exhaustive enumeration of call terms with a range oracle')
 
@@ -25,35 +25,35 @@ CHECKS['C11'] = ('model_checking', '§5 C11',
     'Writer, clock and RNG are recording doubles injected by the runner; regex and sleep have no double so only their outcome is checked.',
     'exhaustive enumeration of a finite configuration product with recording doubles')
 CHECKS['C08'] = ('model_checking', '§5 C08',
-    'A corpus of programs with closed-form nesting depth, call count, tail-iteration count and search length is run under every limit value L from 1 to beyond the need, each of the four limits separately and all four combined: violation exactly at the documented threshold, otherwise dump and output identical to the unlimited run; the call counter read through the hook equals the closed form; library functions written in the language are checked for coverage and monotone thresholds. All host-call histories (run, run, erroring run, two kinds of reset) up to length 4 (6 thorough) on one runtime for L in 1..8 are compared with a counter model.',
+    'A corpus of programs with closed-form nesting depth, call count, tail-iteration count and search length is run under every limit value L from 1 to beyond the need, each of the four limits separately and all four combined: violation exactly at the documented threshold, otherwise dump and output identical to the unlimited run; the call counter read through the hook equals the closed form; library functions written in the language are checked for coverage and monotone thresholds. All host-call histories (run, run, erroring run, two kinds of reset) up to length 4 (6 thorough) on one runtime for L in 1..8 are compared with a counter model. Also: searches over finite sequences that examine exactly k elements (threshold exact), calls skipped because of an error argument (not counted).',
     'Closed-form counts are derived by hand from the book for each template; programs outside the corpus are not covered.',
     'fault-point sweep over every limit value + explicit-state enumeration of host-call histories vs counter model')
 
 CHECKS['C09'] = ('fault_enumeration', '§5 C09',
-    'For every program of a corpus of value builders (big ints, strings, every copying sequence update, stacks, sets, mappings, closures, compounds, generators, failing programs) the allocation trace of an unlimited run gives every cumulative total; the program is re-run with the size limit just below and at every distinct total, around the peak and below the library baseline (thorough: every 8 bytes from baseline to peak). Checked on every run: violation kind, monotonicity in L, peak <= L on passing runs, result independent of L, accounted level back to the pre-run level after dropping results and after a violation, exactly zero after everything is dropped, payload lower bound, no underflow.',
+    'For every program of a corpus of value builders (big ints, strings, every copying sequence update, stacks, sets, mappings, closures, compounds, generators, failing programs) the allocation trace of an unlimited run gives every cumulative total; the program is re-run with the size limit just below and at every distinct total, around the peak and below the library baseline (thorough: every 8 bytes from baseline to peak). Checked on every run: violation kind, monotonicity in L, peak <= L on passing runs, result independent of L, accounted level back to the pre-run level after dropping results and after a violation, exactly zero after everything is dropped, payload lower bound, no underflow. Also: conservation for every static library overload on small pools (the accounted level returns to its pre-call value after the result is dropped, twice in a row).',
     'Allocation totals come from a read-only trace hook in Runtime::allocate; pre-flight checks may refuse earlier than the exact peak (allowed); corpus is finite.',
     'fault-point enumeration: size limit placed at every allocation threshold of each run')
 
 CHECKS['C17'] = ('model_checking', '§5 C17',
-    'Explicit-state BFS to a fixpoint: from the empty mapping / set, every documented update (set, set_default, pop, discard, clear, update from generators and from other states, update_from_keys, map_values, add, remove, set algebra) over a key universe of 3-5 keys and 2 values, for 8 hash/equality configurations (injective, constant, modular hashes; equality coarser than identity; extreme hash values; the dynamic constructors). State key = (abstract finite map over equivalence classes, multiset of bucket sizes), so layouts that differ only internally are distinct states. Every edge observes len, lookup/contains/get(+default) for every key, sorted entries/keys/values, eq and hash against a freshly built equal collection, subset relations — on the post-state and again on the pre-state (persistence). Since the reachable space is finite and closed, every history of any length is a path of the explored graph.',
+    'Explicit-state BFS to a fixpoint: from the empty mapping / set, every documented update (set, set_default, pop, discard, clear, update from generators and from other states, update_from_keys, map_values, add, remove, set algebra) over a key universe of 3-5 keys and 2 values, for 8 hash/equality configurations (injective, constant, modular hashes; equality coarser than identity; extreme hash values; the dynamic constructors). State key = (abstract finite map over equivalence classes, multiset of bucket sizes), so layouts that differ only internally are distinct states. Every edge observes len, lookup/contains/get(+default) for every key, sorted entries/keys/values, eq and hash against a freshly built equal collection, subset relations — on the post-state and again on the pre-state (persistence). Since the reachable space is finite and closed, every history of any length is a path of the explored graph. Also: equality, order and set algebra between collections holding the same elements but built over different hash functions (all pairs of the identity-equality configurations, all pairs of subsets).',
     'Key universe and value universe are small; which of several equal keys is stored and iteration order are unspecified and normalised; inconsistent hash/eq pairs are not explored.',
     'explicit-state BFS to fixpoint on the real collections with per-transition conformance to an association-list model')
 CHECKS['C15'] = ('model_checking', '§5 C15',
-    'Explicit-state BFS over Sequence<int> values from literal arrays, ranges of every step sign (and 64-bit edge ranges), empty sequences and infinite sequences: every copying update, slice, concatenation (with earlier states), map, sort, filter, repeat with indices at -len-1..len+1 and 2^64; state key = (model list, representation path such as Slice(Chain(Array,Range))), so every lazy representation of the same list is a separate state. Every edge observes len, every index, the forced elements, eq/cmp/hash/to_str against the literal list, searches and folds on the post-state and again on the pre-state. Quick: depth 2 (2.8k states, 11k edges); thorough: depth 3 (54k states, 256k edges).',
+    'Explicit-state BFS over Sequence<int> values from literal arrays, ranges of every step sign (and 64-bit edge ranges), empty sequences and infinite sequences: every copying update, slice, concatenation (with earlier states), map, sort, filter, repeat with indices at -len-1..len+1 and 2^64; state key = (model list, representation path such as Slice(Chain(Array,Range))), so every lazy representation of the same list is a separate state. Every edge observes len, every index, the forced elements, eq/cmp/hash/to_str against the literal list, searches and folds on the post-state and again on the pre-state. Quick: depth 2 (2.8k states, 11k edges); thorough: depth 3 (54k states, 256k edges). Also: every bracketing of a concatenation of 2-6 (thorough 7) parts of different representations; ranges whose index arithmetic leaves 64 bits; repeat of infinite sequences.',
     'Python lists are the reference; requests the book leaves open (take/skip beyond the end, insert at len or negative, repeat(0)) accept the list result or an error value; infinite sequences are modelled by a 48-element prefix.',
     'explicit-state BFS over operation histories with per-transition conformance to a list model')
 CHECKS['C16'] = ('model_checking', '§5 C16',
-    'Part A: explicit-state BFS over Generator<int> values (finite, empty, infinite, successors) with every adaptor (map, filter, take, skip, take_while, skip_until, add with earlier states, aggregate x2, repeat, distinct; zip/enumerate/windows/chunks/group/with_count/flatten/product/unzip as terminal observations) and every consumer (to_array twice, len, get, nth, first, last, reduce, any/all/count, contains, min/max, join) on the post-state and again on the pre-state. Part B: every pipeline of <=2 (thorough 3) adaptors over a ticking infinite source x 3 consumers: the source elements actually evaluated (recorded by the writer double) are in order, once each, and at most what a lazy reference pipeline pulls plus a constant look-ahead per adaptor.',
+    'Part A: explicit-state BFS over Generator<int> values (finite, empty, infinite, successors) with every adaptor (map, filter, take, skip, take_while, skip_until, add with earlier states, aggregate x2, repeat, distinct; zip/enumerate/windows/chunks/group/with_count/flatten/product/unzip as terminal observations) and every consumer (to_array twice, len, get, nth, first, last, reduce, any/all/count, contains, min/max, join) on the post-state and again on the pre-state. Part B: every pipeline of <=2 (thorough 3) adaptors over a ticking infinite source x 3 consumers: the source elements actually evaluated (recorded by the writer double) are in order, once each, and at most what a lazy reference pipeline pulls plus a constant look-ahead per adaptor. Also: enumerate with negative / zero / descending starts and steps, repeat of infinite streams (nothing consumed up front), flatten of an empty outer generator.',
     'Python lists/itertools are the reference; infinite generators are modelled by a 64-element prefix; look-ahead constants are part of the oracle (window width, chunk size, 2 for group, 1 otherwise).',
     'explicit-state BFS with per-transition conformance + exhaustive pipeline enumeration with an evaluation-count oracle')
 
 CHECKS['C20'] = ('model_checking', '§5 C20',
-    'JSON: documents (20 atoms incl. escapes, controls, non-BMP, extreme doubles; arrays and objects to nesting depth 1/2) are built with the constructors, serialised and parsed by Python json (strict, duplicate-key and NaN rejecting), and Python-produced texts in three styles are deserialised, compared in-language and re-serialised; malformed texts must give error values. Dates: every Julian day in +-3,000,000 (thorough; quick: +-40 days around every 400-year/leap/century boundary plus a stride) is checked in-language for round trip, strict order and weekday, and calendar fields are compared with a civil-from-days reference (self-checked against datetime.date). Datetime<->unix at minute/hour/day boundaries with exact binary fractions. Fractions: constructor normalisation on the full product of a 17-value pool (incl. 2^62+1, +-2^64, 2^70-1, zero denominators) and all arithmetic against fractions.Fraction. to_int/format/digits in every base 2..36 over the integer pool; chr/code_point for every scalar value 0..0x10FFFF (surrogates and beyond must be errors).',
+    'JSON: documents (20 atoms incl. escapes, controls, non-BMP, extreme doubles; arrays and objects to nesting depth 1/2) are built with the constructors, serialised and parsed by Python json (strict, duplicate-key and NaN rejecting), and Python-produced texts in three styles are deserialised, compared in-language and re-serialised; malformed texts must give error values. Dates: every Julian day in +-3,000,000 (thorough; quick: +-40 days around every 400-year/leap/century boundary plus a stride) is checked in-language for round trip, strict order and weekday, and calendar fields are compared with a civil-from-days reference (self-checked against datetime.date). Datetime<->unix at minute/hour/day boundaries with exact binary fractions. Fractions: constructor normalisation on the full product of a 17-value pool (incl. 2^62+1, +-2^64, 2^70-1, zero denominators) and all arithmetic against fractions.Fraction. to_int/format/digits in every base 2..36 over the integer pool; chr/code_point for every scalar value 0..0x10FFFF (surrogates and beyond must be errors). Also: fractions whose numerator and denominator share a factor beyond 64 bits (the reduced parts must be the small integers: compared inside the language); every lone control character in JSON strings and keys.',
     'Python json / fractions / int / chr and the civil-from-days algorithm are the references; JSON numbers compared as doubles, key order ignored; datetime fractions restricted to exactly representable ones.',
     'bounded-exhaustive enumeration vs independent reference implementations (incl. a full sweep of the documented day range)')
 
 CHECKS['C19'] = ('model_checking', '§5 C19',
-    'Laws over every same-type pair (and triples of the smallest values) of complete small universes per static type (int, str, float, bool, tuples, Sequence incl. lazy representations of the same list, Optional, Stack, Set, Mapping, nested types): eq reflexive/symmetric/transitive, eq => equal hash, hash range, cmp antisymmetric/transitive/lexicographic and consistent with the relational operators and min/max, to_str shape, format(x,"")==to_str(x). The complete product of the format-specifier grammar (fill x align x sign x # x 0 x width x grouping x mode; precision for floats) against a formatter written from the book (Python format() for floats/strings, which shares the grammar). Sorting: all lists over {0,1,2} up to length 6/8, stability on (key, tag) pairs, preorder comparators, order statistics, and structured lists (lengths 9..200: runs split at every position, descending runs of every length) against a stable reference. Failing comparator: for each list, a violation (call limit) at the k-th comparator call for every k and an error value at every distinct compared pair; the outcome must be exactly that failure and the accounted byte level must return to its pre-call value (no element lost, duplicated or leaked).',
+    'Laws over every same-type pair (and triples of the smallest values) of complete small universes per static type (int, str, float, bool, tuples, Sequence incl. lazy representations of the same list, Optional, Stack, Set, Mapping, nested types): eq reflexive/symmetric/transitive, eq => equal hash, hash range, cmp antisymmetric/transitive/lexicographic and consistent with the relational operators and min/max, to_str shape, format(x,"")==to_str(x). The complete product of the format-specifier grammar (fill x align x sign x # x 0 x width x grouping x mode; precision for floats) against a formatter written from the book (Python format() for floats/strings, which shares the grammar). Sorting: all lists over {0,1,2} up to length 6/8, stability on (key, tag) pairs, preorder comparators, order statistics, and structured lists (lengths 9..200: runs split at every position, descending runs of every length) against a stable reference. Failing comparator: for each list, a violation (call limit) at the k-th comparator call for every k and an error value at every distinct compared pair; the outcome must be exactly that failure and the accounted byte level must return to its pre-call value (no element lost, duplicated or leaked). The float universe includes negative zero; the failing-comparator sweep includes inputs with long ascending / descending runs.',
     'Facets the book leaves open are not compared (grouping with non-decimal modes, # without mode, X digit case, shape of scientific notation, rank base of nth_smallest). The accounted level read through the hook is the witness for element loss/duplication.',
     'bounded-exhaustive law checking over complete universes + fault-point enumeration (failure at every comparison)')
 
@@ -63,42 +63,42 @@ CHECKS['C06'] = ('fault_enumeration', '§5 C06',
     'fault injection at every argument position + limit sweep through every catcher context')
 
 CHECKS['C07'] = ('model_checking', '§5 C07',
-    '31 recursive-function templates place the self-call in every syntactic position: tail carriers (if branches, nested if, if_error 2nd/3rd, and/or second operand, Optional or (both overloads)/and/map_or default, cast, to_str, local lets) and non-tail positions (under an operator, argument of a user function, inside a called lambda / nested fn, array and tuple literals, if condition, first operand of and / if_error / Optional or, map callback, mutual recursion), plus alias and partial (value only). For iteration counts 0,1,2,3,7,50,1000 (100000 thorough) and limit configurations: the value equals plain recursion; tail carriers pass depth limit 4 for every n, make no additional user calls per iteration (hook counter), and end in MaximumRecursion exactly when n exceeds the limit (L in n-1,n,n+1); non-tail positions end in MaximumStackDepth under depth 3 and never in MaximumRecursion.',
+    '31 recursive-function templates place the self-call in every syntactic position: tail carriers (if branches, nested if, if_error 2nd/3rd, and/or second operand, Optional or (both overloads)/and/map_or default, cast, to_str, local lets) and non-tail positions (under an operator, argument of a user function, inside a called lambda / nested fn, array and tuple literals, if condition, first operand of and / if_error / Optional or, map callback, mutual recursion), plus alias and partial (value only). For iteration counts 0,1,2,3,7,50,1000 (100000 thorough) and limit configurations: the value equals plain recursion; tail carriers pass depth limit 4 for every n, make no additional user calls per iteration (hook counter), and end in MaximumRecursion exactly when n exceeds the limit (L in n-1,n,n+1); non-tail positions end in MaximumStackDepth under depth 3 and never in MaximumRecursion. Also: self-calls under member / variant access and indexing (not tail positions), tail calls to another closure of the same literal, to another overload and to a function of the same shape.',
     'The reference evaluator has no TCO (plain recursion); classification of each template as tail / non-tail is by the book rule; alias/partial may be optimised or not.',
     'exhaustive enumeration of call positions x iteration counts x limit configurations vs reference semantics without TCO')
 
 CHECKS['C10'] = ('exploration', '§5 C10',
-    'Under search=50 and calls=200 (with and without an 8 MiB size limit) and a 5 s per-case watchdog: every generator pipeline source (infinite, huge, empty, repeat of empty, successors) x <=1 adaptor plus all pairs led by the adaptors that iterate internally (quick) / all pairs and hot triples (thorough, 330k cases) x 15 consumers; every infinite or huge sequence x 34 consuming builtins; 60 adversarial numeric calls (digits with bases <2 and 2^70, binom/multinom/combination/permutation with 10^6..2^70, pow(2,10^9), 10**(10**6) then to_str/digits/format, factorial(10^6), "a"*10^12, huge windows/chunks/repeat counts, deep JSON nesting, padding widths of 10^10). A case must return a value, an error or a violation; a hang or an abort of the process is a violation. With time_limit=0: programs with a user call end in Timeout and no function body prints; programs without user calls are unaffected.',
+    'Under search=50 and calls=200 (with and without an 8 MiB size limit) and a 5 s per-case watchdog: every generator pipeline source (infinite, huge, empty, repeat of empty, successors) x <=1 adaptor plus all pairs led by the adaptors that iterate internally (quick) / all pairs and hot triples (thorough, 330k cases) x 15 consumers; every infinite or huge sequence x 34 consuming builtins; 60 adversarial numeric calls (digits with bases <2 and 2^70, binom/multinom/combination/permutation with 10^6..2^70, pow(2,10^9), 10**(10**6) then to_str/digits/format, factorial(10^6), "a"*10^12, huge windows/chunks/repeat counts, deep JSON nesting, padding widths of 10^10). A case must return a value, an error or a violation; a hang or an abort of the process is a violation. With time_limit=0: programs with a user call end in Timeout and no function body prints; programs without user calls are unaffected. Also: the time limit combined with every other limit, a deadline that passes in mid-run after k = 0..17 calls, inside a tail-recursive loop and inside plain recursion; whole-sequence builtins on infinite sequences built by zip / enumerate / map / skip.',
     'Establishes "no enumerated case exceeds the budget", not termination in general; memory-hungry cases run only with the size limit; timing other than "already elapsed" is not explored (Instant::now is not behind a seam).',
     'bounded-exhaustive enumeration of pipelines and adversarial arguments under a watchdog')
 
 CHECKS['C12'] = ('exploration', '§5 C12',
-    'Every token string of <=3 tokens over a 51-token alphabet taken from the grammar (140k texts; thorough: all 6.8M strings of 4 tokens through the public parser, and a compilation scope for every one that parses); every numeric-literal spelling of <=5/6 characters over {0,1,9,_,.,e,E,-,x,b,a,f} plus digit runs to 400, hex runs to 140, exponents to +-400 (accepted literals are evaluated and compared with Python\'s reading; unrepresentable ones must be compile errors); every single-token deletion, duplication, replacement by 14 tokens and adjacent swap of the shipped scripts and book examples (quick: the 40 shortest scripts and 25 shortest examples); bracket / operator / type / lambda / f-string nesting at depths 1..64; programs whose evaluation would print, loop, allocate without bound or fail. Every chunk is compiled twice in separate processes: no panic, no hang, a rendered non-empty error, writer/clock/RNG untouched, identical verdicts and error texts.',
+    'Every token string of <=3 tokens over a 51-token alphabet taken from the grammar (140k texts; thorough: all 6.8M strings of 4 tokens through the public parser, and a compilation scope for every one that parses); every numeric-literal spelling of <=5/6 characters over {0,1,9,_,.,e,E,-,x,b,a,f} plus digit runs to 400, hex runs to 140, exponents to +-400 (accepted literals are evaluated and compared with Python\'s reading; unrepresentable ones must be compile errors); every single-token deletion, duplication, replacement by 14 tokens and adjacent swap of the shipped scripts and book examples (quick: the 40 shortest scripts and 25 shortest examples); bracket / operator / type / lambda / f-string nesting at depths 1..64; programs whose evaluation would print, loop, allocate without bound or fail. Every chunk is compiled twice in separate processes: no panic, no hang, a rendered non-empty error, writer/clock/RNG untouched, identical verdicts and error texts. Also: specialization shapes f{t1..tm}(a1..an) with $ placeholders for m, n = 0..4; identifier spellings incl. itemN up to 40 digits in three declaration roles; accepted twins of the type-rendering programs; literals nested to depth 48/64 whose levels have different but unifiable types; error excerpts cut at every byte offset of multi-byte text.',
     'Token strings are joined by single spaces, mutations are single-point; determinism is checked between identical feed histories in two processes; error texts are only compared between runs.',
     'bounded-exhaustive enumeration of source texts with a totality / effect-freedom / determinism oracle')
 
 CHECKS['C02'] = ('model_checking', '§5 C02',
-    'Four exhaustively enumerated families compared in lock-step with a reference evaluator written in Python (mc/model/lang.py): (1) every operator string of <=2 (thorough: <=3) binary operators over all 17 operators x 5 unary prefixes, evaluated on a trace struct whose operator overloads record the parse, against a reference precedence climber; (2) every well-typed term of the core fragment (int/float/str/bool/Optional/Sequence/tuple/struct/union, if/else, &&/||, let-lambda, calls, member access, error leaves) up to a size bound over an edge-value pool, rendered both with operators and with the equivalent function-call sugar; (3) evaluation-order, exactly-once and short-circuit programs observed through the recording writer; (4) declaration programs (every ordering / shadowing / forward-reference arrangement of a small declaration alphabet). Value or error class must equal the reference on every term.',
+    'Four exhaustively enumerated families compared in lock-step with a reference evaluator written in Python (mc/model/lang.py): (1) every operator string of <=2 (thorough: <=3) binary operators over all 17 operators x 5 unary prefixes, evaluated on a trace struct whose operator overloads record the parse, against a reference precedence climber; (2) every well-typed term of the core fragment (int/float/str/bool/Optional/Sequence/tuple/struct/union, if/else, &&/||, let-lambda, calls, member access, error leaves) up to a size bound over an edge-value pool, rendered both with operators and with the equivalent function-call sugar; (3) evaluation-order, exactly-once and short-circuit programs observed through the recording writer; (4) declaration programs (every ordering / shadowing / forward-reference arrangement of a small declaration alphabet). Value or error class must equal the reference on every term. Also: powers of floats over a sign / zero / integrality grid; programs whose size crosses index-width boundaries (2^7, 2^8, 2^16 declarations, parameters, fields, tuple items, variants, captured names, nesting levels, operator chains); a pool of integers at representation boundaries.',
     'Terms outside the fragment (generators, mappings, stdlib written in xray) are covered by C15-C20; powers above 2^256 and the sign of an integer zero divided by a negative long are skipped as unspecified; chained comparison mixes of < and > are skipped (grammar ambiguity with turbofish).',
     'bounded-exhaustive term enumeration vs reference evaluator')
 
 CHECKS['C03'] = ('model_checking', '§5 C03',
-    'Lock-step with a persistent-environment reference evaluator (mc/model/scope.py): (1) every declaration tree of <=3 (quick) / <=4-5 (thorough) declarations over {int let, named function, closure-returning function, let-bound lambda} x parameter shapes {none, shadowing parameter, printing default}, nesting depth <=3/4, with a maximal observation at every site (sum of every nameable int plus a call of every nameable callable, all literals distinct), rendered directly and with every callee transported through 7 routes (sequence, tuple, Optional, if, generic identity, stack, mapping), run nested in a lambda and at top level; (2) capture matrix: nesting depth 1..3/4 x {absent, before, after, parameter, both}^levels x {nested calls, escaping closures}; (3) defaults: creations x calls with counted output; (4) recursion through captured names, closures per iteration / recursion level; (5) forward declarations: every declaration order x use position x target x 6 ways of using a function, nested scopes, transitive dependants, and every route by which a forward-dependent function value can leave its scope; (6) 52 identifier spellings (itemN family, keyword prefixes, case, underscores) in 5 declaration roles plus all ordered pairs and tuple-member spellings.',
+    'Lock-step with a persistent-environment reference evaluator (mc/model/scope.py): (1) every declaration tree of <=3 (quick) / <=4-5 (thorough) declarations over {int let, named function, closure-returning function, let-bound lambda} x parameter shapes {none, shadowing parameter, printing default}, nesting depth <=3/4, with a maximal observation at every site (sum of every nameable int plus a call of every nameable callable, all literals distinct), rendered directly and with every callee transported through 7 routes (sequence, tuple, Optional, if, generic identity, stack, mapping), run nested in a lambda and at top level; (2) capture matrix: nesting depth 1..3/4 x {absent, before, after, parameter, both}^levels x {nested calls, escaping closures}; (3) defaults: creations x calls with counted output; (4) recursion through captured names, closures per iteration / recursion level; (5) forward declarations: every declaration order x use position x target x 6 ways of using a function, nested scopes, transitive dependants, and every route by which a forward-dependent function value can leave its scope; (6) 52 identifier spellings (itemN family, keyword prefixes, case, underscores) in 5 declaration roles plus all ordered pairs and tuple-member spellings. Also: overloaded forward declarations fulfilled in every order with transitive dependants; partial application (values kept, not expressions) as text cases and as a transport.',
     'Named functions get program-unique names (same-named functions aggregate into overloads: C05). Creating a lambda that depends on an unfulfilled forward declaration is expected to be a compilation error. Two known findings (C03-K1, C03-K2) concern forward declarations inside function bodies.',
     'bounded-exhaustive enumeration of declaration trees vs reference evaluator (persistent environments)')
 
 CHECKS['C04'] = ('model_checking', '§5 C04',
-    'Compile-only lock-step with a reference relation written from the documented rules (mc/model/types.py: assignability, least common type, generic binding). A: the complete (required, supplied) matrix over a type universe closed under Sequence / Optional / Generator / Stack / Mapping / Set / tuples of 0-3 / callables (written types, lambdas, named functions with optional parameters) / generic structs and unions with 0-2 parameters / the bottom type, to nesting depth 1 (quick, 57x62 types) or 2 (thorough, ~300x330 types), in 8 syntactic positions with a literal witness (let, argument, struct field, variant payload, return, default value, lambda return, method argument) and 5 with a parameter of the supplied type; B: 10 generic signature shapes x all argument tuples over a pool, result type probed (accepted at the expected type, rejected at single-leaf variations); C: 6 type-inferring forms (sequence literals of 2 and 3, if, concatenation, push, mapping set) x all part combinations with probes; D: calls through function values (parameter, let-bound lambda, element, immediate, struct field, named alias) x all argument tuples of arity 0-3; E: construction of compounds whose parameter occurs in several fields / variants, field counts, same-named declarations in different scopes. Accepted iff the reference says assignable.',
+    'Compile-only lock-step with a reference relation written from the documented rules (mc/model/types.py: assignability, least common type, generic binding). A: the complete (required, supplied) matrix over a type universe closed under Sequence / Optional / Generator / Stack / Mapping / Set / tuples of 0-3 / callables (written types, lambdas, named functions with optional parameters) / generic structs and unions with 0-2 parameters / the bottom type, to nesting depth 1 (quick, 57x62 types) or 2 (thorough, ~300x330 types), in 8 syntactic positions with a literal witness (let, argument, struct field, variant payload, return, default value, lambda return, method argument) and 5 with a parameter of the supplied type; B: 10 generic signature shapes x all argument tuples over a pool, result type probed (accepted at the expected type, rejected at single-leaf variations); C: 6 type-inferring forms (sequence literals of 2 and 3, if, concatenation, push, mapping set) x all part combinations with probes; D: calls through function values (parameter, let-bound lambda, element, immediate, struct field, named alias) x all argument tuples of arity 0-3; E: construction of compounds whose parameter occurs in several fields / variants, field counts, same-named declarations in different scopes. Accepted iff the reference says assignable. F: calls of generic functions from inside one and two levels of generic functions whose own type parameters have the same or other names (the caller\'s parameter is an opaque type), results bound to declared types, calls through the host\'s function-typed values; structs named like the generic parameters are declared first and must never matter.',
     'Error classes are not compared, only acceptance. A supplied type without a literal witness is only supplied as a parameter. Where two callables have identical component types but different optional-parameter windows the common type is treated as unspecified.',
     'bounded-exhaustive enumeration of type pairs / tuples vs reference relation')
 
 CHECKS['C05'] = ('model_checking', '§5 C05',
-    'Every set of 1-3 same-named user overloads (thorough: all sets of 4 and every 37th set of 5-6) from an alphabet of 19 signatures (11 non-generic incl. optional parameters and the empty list, 8 generic incl. two parameters, container-of-T and optional parameters) x every declaration order (all permutations up to 3) x 4 placements over scope levels (flat, call in a nested function, set split between levels, all nested) x 3 alpha-renamings of generic / value parameters (incl. a generic parameter named like a visible struct) x an added overload that can never match; plus 3 standard-library names (abs, len, push) with 0-2 user overloads; every call tuple of a 16-tuple pool. Reference: matching non-generic candidates, else matching generic ones; exactly one runs (each body returns its own tag), several = AmbiguousOverload, none = NoOverload. Calls whose argument types contain the bottom type have no reference outcome (outside the stated quantifier) and are checked for stability only: same outcome for every order, placement and renaming of one set.',
+    'Every set of 1-3 same-named user overloads (thorough: all sets of 4 and every 37th set of 5-6) from an alphabet of 19 signatures (11 non-generic incl. optional parameters and the empty list, 8 generic incl. two parameters, container-of-T and optional parameters) x every declaration order (all permutations up to 3) x 4 placements over scope levels (flat, call in a nested function, set split between levels, all nested) x 3 alpha-renamings of generic / value parameters (incl. a generic parameter named like a visible struct) x an added overload that can never match; plus 3 standard-library names (abs, len, push) with 0-2 user overloads; every call tuple of a 16-tuple pool. Reference: matching non-generic candidates, else matching generic ones; exactly one runs (each body returns its own tag), several = AmbiguousOverload, none = NoOverload. Calls whose argument types contain the bottom type have no reference outcome (outside the stated quantifier) and are checked for stability only: same outcome for every order, placement and renaming of one set. Also: call sites interleaved with declarations (the set grows between calls), three scope levels with every resolvable call made from one body (at top level and inside a function), calls from inside generic functions, a generic overload whose parameter occurs only in an omitted optional parameter, overloads with function-typed parameters called with named functions (optional parameters) and lambdas.',
     'Dynamic (factory) overloads are left out of the candidate sets: the chosen names have none that can match the pool.',
     'bounded-exhaustive enumeration of overload sets and call sites vs reference resolver + metamorphic stability')
 
 CHECKS['C01'] = ('exploration', '§5 C01',
-    'Every generated program is offered to the compiler and every one the COMPILER accepts is instantiated and executed; each binding is read with the static type the compiler assigned (hook), its dumped shape is checked against that type, and it is consumed by a type-directed eliminator (code generated from the static type that touches every component with natively typed operations, so a wrong dynamic tag panics). A: the (required, supplied) matrix of C04 (type universe to depth 1 quick / 2 thorough) flowing through 10 positions (let, argument, field, variant, return, default, lambda return, element, parameter return, parameter let); B: generic calls whose bodies return their arguments in rotated order, inferred-type forms, calls through function values, compound construction; C: every static standard-library overload on type-directed pools plus the complete product of edge values (representation boundaries, signed zero, extremes) for scalar signatures of arity <= 2, under a roomy and a tight limit configuration; D: compiling single-token mutants of the shipped scripts / book examples, instantiated and main run under limits. Oracle: never a panic, abort, hang or host error; every value has the shape of its static type.',
+    'Every generated program is offered to the compiler and every one the COMPILER accepts is instantiated and executed; each binding is read with the static type the compiler assigned (hook), its dumped shape is checked against that type, and it is consumed by a type-directed eliminator (code generated from the static type that touches every component with natively typed operations, so a wrong dynamic tag panics). A: the (required, supplied) matrix of C04 (type universe to depth 1 quick / 2 thorough) flowing through 10 positions (let, argument, field, variant, return, default, lambda return, element, parameter return, parameter let); B: generic calls whose bodies return their arguments in rotated order, inferred-type forms, calls through function values, compound construction; C: every static standard-library overload on type-directed pools plus the complete product of edge values (representation boundaries, signed zero, extremes) for scalar signatures of arity <= 2, under a roomy and a tight limit configuration; D: compiling single-token mutants of the shipped scripts / book examples, instantiated and main run under limits. Oracle: never a panic, abort, hang or host error; every value has the shape of its static type. The library sweep follows every call that returns an int / float / Sequence of them with an operation that needs a well-formed result (an integer zero must compare equal to 0, a float must be finite); every dynamic (factory) function is applied to every value and pair of values from a pool of 38 differently shaped values (whatever the factory accepts must run); receivers include virtual sequences of up to 2^64 elements.',
     'Conformance is judged on the dumped prefix of a value (12 items per container); library types other than the containers are not shape-checked; every run has a size limit (running out of memory with no limit configured is not counted).',
     'bounded-exhaustive enumeration of programs with an execution oracle (no crash + value shape = static type)')
 
